@@ -443,7 +443,14 @@ func (r *Recomposer) recomp(v any, rv reflect.Value) {
 			return
 		}
 		var im map[string]reflect.StructField
-		if c := r.composers[rv.Type().Name()]; c != nil {
+		c := r.composers[rv.Type().Name()]
+		if c != nil && c.rtype != nil && c.rtype != rv.Type() {
+			// Same short name but a different type. Try the full name.
+			if c = r.composers[rv.Type().PkgPath()+"/"+rv.Type().Name()]; c != nil && c.rtype != rv.Type() {
+				c = nil
+			}
+		}
+		if c != nil {
 			if c.fun != nil {
 				if val, err := c.fun(vm); err == nil {
 					vv := reflect.ValueOf(val)
@@ -457,6 +464,8 @@ func (r *Recomposer) recomp(v any, rv reflect.Value) {
 				break
 			}
 			im = c.indexes
+		} else if len(rv.Type().Name()) == 0 { // anonymous types can not be registered by name
+			im = indexType(rv.Type())
 		} else {
 			c, _ = r.registerComposer(rv.Type(), nil)
 			im = c.indexes
